@@ -12,7 +12,10 @@ the association-list bookkeeping that ties the trace to `Balance.valuateDay` / `
 * `mapM_valueTx_on`, `valued_user`, `valued_qtyZero` – valuation gives the day's bookings on `(a, c)` values summing to
   `MTM.booked` and leaves the adjustments alone;
 * `valuateDay_position` – one day = one `MTM.stepDay`;
-* `valuationRun`, `traceOf`, `valuationRun_trace` – the fold over the days = `MTM.run` on the extracted trace.
+* `valuationRun`, `traceOf`, `valuationRun_trace` – the fold over the days = `MTM.run` on the extracted trace;
+* `dayQ`, `pipelineRun`, `traceOfRun`, `pipelineRun_trace`, `run_pipelineRun` – the same for ALL stages (`Balance.dayTxs`:
+  check, ComputePrices, Valuate, Filter, CloseAccounts) on days inside the window, and `Balance.run` is that fold;
+* `entryVal_flatMap` – in a plain valued report the inserts on `(a, c)` total the values of the postings on `(a, c)`.
 
 Prices enter through `PriceIs np c p` ("if `c` has a price in `np` it is `p`"), so that days on which `c` has no price
 yet (possible only while the position is closed and nothing is booked on it) need no special case.
@@ -658,5 +661,407 @@ theorem valuationRun_trace (cfg : BalCfg) (v : Commodity) (a : Account) (c : Com
         refine ⟨?_, i2, i3, i4⟩
         rw [i1, w1, valOn_append]
         grind
+
+
+/-! ### the stages around the valuation: check, Filter, CloseAccounts -/
+
+/-- the part of the state the Valuate/ComputePrices stages own -/
+def SameVal (s t : BalState) : Prop := s.vQty = t.vQty ∧ s.vPrev = t.vPrev
+
+/-- `CloseAccounts` accumulates non-asset/liability positions only -/
+def CloseInv (st : BalState) : Prop := ∀ k ∈ st.cQty.map (·.1), k.1.isAL = false
+
+theorem foldl_inv {α β : Type} (P : α → Prop) (f : α → β → α) (hf : ∀ s x, P s → P (f s x)) :
+    ∀ (xs : List β) (s : α), P s → P (xs.foldl f s)
+  | [], _, h => h
+  | x :: xs, s, h => foldl_inv P f hf xs (f s x) (hf s x h)
+
+theorem accumulate_inv (P : BalState → Prop)
+    (hP : ∀ (st : BalState) (p : Posting), P st → ¬ (p.account.isAL || decide (p.account = equityAccount)) = true →
+      P { st with cQty := st.cQty.set (p.account, p.commodity) (st.cQty.get (p.account, p.commodity) 0 + p.quantity),
+                  cVal := st.cVal.set (p.account, p.commodity) (st.cVal.get (p.account, p.commodity) 0 + p.value) })
+    (st : BalState) (ts : List Transaction) (h : P st) : P (Balance.accumulate st ts) := by
+  unfold Balance.accumulate
+  apply foldl_inv P _ _ ts st h
+  intro s t hs
+  apply foldl_inv P _ _ t.postings s hs
+  intro s p hs
+  split
+  · exact hs
+  · rename_i hc
+    exact hP s p hs hc
+
+theorem accumulate_sameVal (st : BalState) (ts : List Transaction) : SameVal (Balance.accumulate st ts) st :=
+  accumulate_inv (fun s => SameVal s st) (fun _ _ h _ => h) st ts ⟨rfl, rfl⟩
+
+theorem accumulate_closeInv (st : BalState) (ts : List Transaction) (h : CloseInv st) :
+    CloseInv (Balance.accumulate st ts) := by
+  apply accumulate_inv CloseInv _ st ts h
+  intro s p hs hc k hk
+  simp only at hk
+  rcases (AMap.keys_set s.cQty _ _ k).mp hk with rfl | hk
+  · simp only [Bool.or_eq_true, not_or, Bool.not_eq_true] at hc
+    exact hc.1
+  · exact hs k hk
+
+theorem build_account (cr dr : Account) (c : Commodity) (q g : Rat) :
+    ∀ p ∈ postingBuild cr dr c q g, p.account = cr ∨ p.account = dr := by
+  intro p hp
+  unfold postingBuild at hp
+  simp only [List.mem_cons, List.not_mem_nil, or_false] at hp
+  rcases hp with rfl | rfl <;> simp only <;> split <;> simp
+
+theorem equityAccount_not_AL : equityAccount.isAL = false := by decide
+
+theorem posOn_closings (a : Account) (c : Commodity) (date : Int) (cQty cVal : AMap Position Rat)
+    (hal : a.isAL = true) (hk : ∀ k ∈ cQty.map (·.1), k.1.isAL = false) :
+    posOn a c (Balance.closings date cQty cVal) = [] := by
+  unfold posOn
+  rw [List.filter_eq_nil_iff]
+  intro p hp
+  rw [List.mem_flatMap] at hp
+  obtain ⟨t, ht, hpt⟩ := hp
+  unfold Balance.closings at ht
+  rw [List.mem_filterMap] at ht
+  obtain ⟨⟨⟨a', c'⟩, q⟩, he, h⟩ := ht
+  simp only at h
+  split at h
+  · cases h
+  · injection h with h; subst h
+    simp only at hpt
+    have hna : a'.isAL = false := hk (a', c') (List.mem_map.mpr ⟨((a', c'), q), he, rfl⟩)
+    unfold onPos
+    have : p.account ≠ a := by
+      intro e
+      rcases build_account _ _ _ _ _ p hpt with h1 | h1
+      · rw [← h1, e, hal] at hna; cases hna
+      · have := equityAccount_not_AL; rw [← h1, e, hal] at this; cases this
+    simp [this]
+
+theorem checkStage_frame (st st' : BalState) (d : Day) (h : Balance.checkStage st d = .ok st') :
+    SameVal st' st ∧ st'.cQty = st.cQty := by
+  unfold Balance.checkStage at h
+  split at h
+  · injection h with h; subst h; exact ⟨⟨rfl, rfl⟩, rfl⟩
+  · cases h
+
+theorem valuationStage_frame (cfg : BalCfg) (st st' : BalState) (d : Day) (txs : List Transaction)
+    (h : Balance.valuationStage cfg st d = .ok (st', txs)) : st'.cQty = st.cQty ∧ st'.entries = st.entries := by
+  unfold Balance.valuationStage at h
+  split at h
+  · injection h with h; injection h with h1 h2; subst h1; exact ⟨rfl, rfl⟩
+  · simp only [bind, Except.bind] at h
+    cases hp : Balance.pricesDay _ st d with
+    | error e => rw [hp] at h; cases h
+    | ok stp =>
+      rw [hp] at h; simp only at h
+      have e1 : stp.cQty = st.cQty ∧ stp.entries = st.entries := by
+        unfold Balance.pricesDay at hp
+        simp only [bind, Except.bind] at hp
+        split at hp
+        · cases hp
+        · injection hp with hp; subst hp; exact ⟨rfl, rfl⟩
+      unfold Balance.valuateDay at h
+      simp only [bind, Except.bind] at h
+      split at h
+      · cases h
+      · split at h
+        · cases h
+        · injection h with h; injection h with h1 h2; subst h1; exact e1
+
+theorem dayTxs_entries (cfg : BalCfg) (st st' : BalState) (d : Day) (txs : List Transaction)
+    (h : Balance.dayTxs cfg st d = .ok (st', txs)) : st'.entries = st.entries := by
+  unfold Balance.dayTxs at h
+  simp only [bind, Except.bind] at h
+  cases hck : Balance.checkStage st d with
+  | error e => rw [hck] at h; cases h
+  | ok stc =>
+    rw [hck] at h; simp only at h
+    cases hvs : Balance.valuationStage cfg stc d with
+    | error e => rw [hvs] at h; cases h
+    | ok r2 =>
+      obtain ⟨st1, txs1⟩ := r2
+      rw [hvs] at h; simp only at h
+      injection h with h
+      have e0 : stc.entries = st.entries := by
+        unfold Balance.checkStage at hck
+        split at hck
+        · injection hck with hck; subst hck; rfl
+        · cases hck
+      have e1 := (valuationStage_frame cfg stc st1 d txs1 hvs).2
+      unfold Balance.closeStage at h
+      split at h
+      · injection h with h1 h2; subst h1
+        have := accumulate_inv (fun s => s.entries = st1.entries) (fun _ _ h _ => h) st1
+          (Balance.filterStage cfg d txs1 ++
+            if ((cfg.periods.map (·.start)).contains d.date) = true then Balance.closings d.date st1.cQty st1.cVal else []) rfl
+        rw [this, e1, e0]
+      · injection h with h1 h2; subst h1; rw [e1, e0]
+
+/-- Filter and CloseAccounts do not touch the Valuate state, and what they pass on to the Query stage has, on an
+asset/liability position, the postings the valuation stage produced (closings are booked between income/expense/equity
+accounts and `Equity:Equity`) – provided the day is inside the window -/
+theorem closeStage_position (cfg : BalCfg) (st st' : BalState) (d : Day) (txs txs' : List Transaction)
+    (a : Account) (c : Commodity) (hal : a.isAL = true) (hinv : CloseInv st)
+    (hspan : cfg.span.contains d.date = true)
+    (h : Balance.closeStage cfg st d (Balance.filterStage cfg d txs) = (st', txs')) :
+    SameVal st' st ∧ CloseInv st' ∧ posOn a c txs' = posOn a c txs := by
+  unfold Balance.closeStage Balance.filterStage at h
+  simp only [hspan, if_true] at h
+  split at h
+  · injection h with h1 h2; subst h1; subst h2
+    refine ⟨accumulate_sameVal _ _, accumulate_closeInv _ _ hinv, ?_⟩
+    rw [posOn_append]
+    split
+    · rw [posOn_closings a c _ _ _ hal hinv, List.append_nil]
+    · rw [posOn_nil, List.append_nil]
+  · injection h with h1 h2; subst h1; subst h2
+    exact ⟨⟨rfl, rfl⟩, hinv, rfl⟩
+
+/-- one day through ALL stages (`Balance.dayTxs`), returning also the transactions handed to the Query stage;
+`Balance.day` is this with the transactions forgotten (`day_eq_dayQ`) -/
+def dayQ (cfg : BalCfg) (st : BalState) (d : Day) : Except BalErr (BalState × List Transaction) :=
+  match Balance.dayTxs cfg st d with
+  | .error e => .error e
+  | .ok (st1, txs) => .ok ({ st1 with entries := st1.entries ++ txs.flatMap (Balance.queryTx cfg) }, txs)
+
+theorem day_eq_dayQ (cfg : BalCfg) (st : BalState) (d : Day) :
+    Balance.day cfg st d = (dayQ cfg st d).map (·.1) := by
+  unfold Balance.day dayQ
+  simp only [bind, Except.bind]
+  cases Balance.dayTxs cfg st d with
+  | error e => rfl
+  | ok r => rfl
+
+/-- the whole pipeline folded over the days, collecting the transactions handed to the Query stage -/
+def pipelineRun (cfg : BalCfg) : BalState → List Day → Except BalErr (BalState × List Transaction)
+  | st, [] => .ok (st, [])
+  | st, d :: ds =>
+    match dayQ cfg st d with
+    | .error e => .error e
+    | .ok (st1, txs) =>
+      match pipelineRun cfg st1 ds with
+      | .error e => .error e
+      | .ok (st2, rest) => .ok (st2, txs ++ rest)
+
+/-- `Balance.run` is `pipelineRun` with the transactions forgotten; the report inserts are the Query stage applied to
+the collected transactions -/
+theorem foldlM_day_eq (cfg : BalCfg) : ∀ (ds : List Day) (st : BalState),
+    ds.foldlM (Balance.day cfg) st = (pipelineRun cfg st ds).map (·.1)
+  | [], st => rfl
+  | d :: ds, st => by
+    rw [List.foldlM_cons, day_eq_dayQ]
+    unfold pipelineRun
+    cases hq : dayQ cfg st d with
+    | error e => rfl
+    | ok r =>
+      obtain ⟨st1, txs⟩ := r
+      simp only [bind, Except.bind, Except.map]
+      rw [foldlM_day_eq cfg ds st1]
+      cases pipelineRun cfg st1 ds with
+      | error e => rfl
+      | ok r2 => rfl
+
+theorem pipelineRun_entries (cfg : BalCfg) : ∀ (ds : List Day) (st st' : BalState) (txs : List Transaction),
+    pipelineRun cfg st ds = .ok (st', txs) → st'.entries = st.entries ++ txs.flatMap (Balance.queryTx cfg)
+  | [], st, st', txs, h => by
+    unfold pipelineRun at h
+    injection h with h; injection h with h1 h2; subst h1; subst h2
+    simp
+  | d :: ds, st, st', txs, h => by
+    unfold pipelineRun at h
+    cases hq : dayQ cfg st d with
+    | error e => rw [hq] at h; cases h
+    | ok r =>
+      obtain ⟨st1, txs1⟩ := r
+      rw [hq] at h; simp only at h
+      cases hr : pipelineRun cfg st1 ds with
+      | error e => rw [hr] at h; cases h
+      | ok r2 =>
+        obtain ⟨st2, rest⟩ := r2
+        rw [hr] at h; simp only at h
+        injection h with h; injection h with h1 h2; subst h1; subst h2
+        rw [pipelineRun_entries cfg ds st1 st2 rest hr]
+        unfold dayQ at hq
+        cases hd : Balance.dayTxs cfg st d with
+        | error e => rw [hd] at hq; cases hq
+        | ok r3 =>
+          obtain ⟨st3, txs3⟩ := r3
+          rw [hd] at hq; simp only at hq
+          injection hq with hq; injection hq with h1 h2; subst h1; subst h2
+          simp only [List.flatMap_append, List.append_assoc]
+          rw [dayTxs_entries cfg st st3 d txs3 hd]
+
+def traceOfRun (cfg : BalCfg) (a : Account) (c : Commodity) : Rat → BalState → List Day → List DayStep
+  | _, _, [] => []
+  | p, st, d :: ds =>
+    match dayQ cfg st d with
+    | .error _ => []
+    | .ok (st1, _) =>
+      ⟨p, priceOr st1.vPrev c p, qtysOn a c d.transactions⟩ :: traceOfRun cfg a c (priceOr st1.vPrev c p) st1 ds
+
+theorem consistent_traceOfRun (cfg : BalCfg) (a : Account) (c : Commodity) :
+    ∀ (ds : List Day) (p : Rat) (st : BalState), Consistent p (traceOfRun cfg a c p st ds)
+  | [], _, _ => trivial
+  | d :: ds, p, st => by
+    unfold traceOfRun
+    split
+    · trivial
+    · exact ⟨rfl, consistent_traceOfRun cfg a c ds _ _⟩
+
+/-- one day through all stages, seen from `(a, c)`: one `stepDay` -/
+theorem dayQ_step (cfg : BalCfg) (v : Commodity) (st st' : BalState) (d : Day) (txs : List Transaction)
+    (a : Account) (c : Commodity) (p : Rat) (s : St)
+    (hv : cfg.valuation = some v) (hc : c ≠ v) (hal : a.isAL = true)
+    (hn : AMap.NodupKeys st.vQty) (hinv : CloseInv st) (hspan : cfg.span.contains d.date = true)
+    (hu : Unvalued a c d.transactions) (hpp : PriceIs st.vPrev c p) (hQ : s.Q = st.vQty.get (a, c) 0)
+    (h : dayQ cfg st d = .ok (st', txs)) :
+    (stepDay s ⟨p, priceOr st'.vPrev c p, qtysOn a c d.transactions⟩).W = s.W + valOn a c txs ∧
+    (stepDay s ⟨p, priceOr st'.vPrev c p, qtysOn a c d.transactions⟩).Q = st'.vQty.get (a, c) 0 ∧
+    AMap.NodupKeys st'.vQty ∧ CloseInv st' := by
+  unfold dayQ at h
+  cases hd : Balance.dayTxs cfg st d with
+  | error e => rw [hd] at h; cases h
+  | ok r =>
+    obtain ⟨st3, txs3⟩ := r
+    rw [hd] at h; simp only at h
+    injection h with h; injection h with h1 h2; subst h1; subst h2
+    unfold Balance.dayTxs at hd
+    simp only [bind, Except.bind] at hd
+    cases hck : Balance.checkStage st d with
+    | error e => rw [hck] at hd; cases hd
+    | ok stc =>
+      rw [hck] at hd; simp only at hd
+      cases hvs : Balance.valuationStage cfg stc d with
+      | error e => rw [hvs] at hd; cases hd
+      | ok r2 =>
+        obtain ⟨st1, txs1⟩ := r2
+        rw [hvs] at hd; simp only at hd
+        injection hd with hd
+        obtain ⟨⟨c1, c2⟩, c3⟩ := checkStage_frame st stc d hck
+        have hinv1 : CloseInv st1 := by
+          unfold CloseInv
+          rw [(valuationStage_frame cfg stc st1 d txs1 hvs).1, c3]
+          exact hinv
+        obtain ⟨⟨k1, k2⟩, k3, k4⟩ := closeStage_position cfg st1 st3 d txs1 txs3 a c hal hinv1 hspan hd
+        obtain ⟨w1, w2, w3⟩ := valuationStage_step cfg v stc st1 d txs1 a c p s hv hc hal (by rw [c1]; exact hn) hu
+          (by rw [c2]; exact hpp) (by rw [c1]; exact hQ) hvs
+        have hval : valOn a c txs3 = valOn a c txs1 := by unfold valOn; rw [k4]
+        simp only
+        rw [k1, k2, hval]
+        exact ⟨w1, w2, w3, k3⟩
+
+/-- **the lift over the whole pipeline**: `Balance.dayTxs` folded over days that lie inside the window, projected on
+`(a, c)`, is `MTM.run` on the extracted trace -/
+theorem pipelineRun_trace (cfg : BalCfg) (v : Commodity) (a : Account) (c : Commodity)
+    (hv : cfg.valuation = some v) (hc : c ≠ v) (hal : a.isAL = true) :
+    ∀ (ds : List Day) (st st' : BalState) (txs : List Transaction) (p : Rat) (s : St),
+      AMap.NodupKeys st.vQty → CloseInv st → (∀ d ∈ ds, cfg.span.contains d.date = true) →
+      (∀ d ∈ ds, Unvalued a c d.transactions) → PriceIs st.vPrev c p →
+      s.Q = st.vQty.get (a, c) 0 → pipelineRun cfg st ds = .ok (st', txs) →
+      (run s (traceOfRun cfg a c p st ds)).W = s.W + valOn a c txs ∧
+      (run s (traceOfRun cfg a c p st ds)).Q = st'.vQty.get (a, c) 0 ∧
+      PriceIs st'.vPrev c (lastPrice p (traceOfRun cfg a c p st ds)) ∧
+      AMap.NodupKeys st'.vQty ∧ CloseInv st'
+  | [], st, st', txs, p, s, hn, hinv, _, _, hpp, hQ, h => by
+    unfold pipelineRun at h
+    injection h with h; injection h with h1 h2; subst h1; subst h2
+    unfold traceOfRun run lastPrice
+    simp only [List.foldl_nil]
+    refine ⟨?_, hQ, hpp, hn, hinv⟩
+    unfold valOn posOn
+    simp [Rat.add_zero]
+  | d :: ds, st, st', txs, p, s, hn, hinv, hsp, hu, hpp, hQ, h => by
+    unfold pipelineRun at h
+    unfold traceOfRun
+    cases hs : dayQ cfg st d with
+    | error e => rw [hs] at h; cases h
+    | ok r =>
+      obtain ⟨st1, txs1⟩ := r
+      rw [hs] at h; simp only at h ⊢
+      cases hr : pipelineRun cfg st1 ds with
+      | error e => rw [hr] at h; cases h
+      | ok r2 =>
+        obtain ⟨st2, rest⟩ := r2
+        rw [hr] at h; simp only at h
+        injection h with h; injection h with h1 h2; subst h1; subst h2
+        obtain ⟨w1, w2, w3, w4⟩ := dayQ_step cfg v st st1 d txs1 a c p s hv hc hal hn hinv
+          (hsp d List.mem_cons_self) (hu d List.mem_cons_self) hpp hQ hs
+        obtain ⟨i1, i2, i3, i4⟩ := pipelineRun_trace cfg v a c hv hc hal ds st1 st2 rest (priceOr st1.vPrev c p)
+          (stepDay s ⟨p, priceOr st1.vPrev c p, qtysOn a c d.transactions⟩) w3 w4
+          (fun d' hd' => hsp d' (List.mem_cons_of_mem _ hd'))
+          (fun d' hd' => hu d' (List.mem_cons_of_mem _ hd')) (priceIs_priceOr _ _ _) w2 hr
+        have hrun : ∀ (x : DayStep) (xs : List DayStep), run s (x :: xs) = run (stepDay s x) xs := fun _ _ => rfl
+        have hlast : ∀ (x : DayStep) (xs : List DayStep), lastPrice p (x :: xs) = lastPrice x.pCur xs := fun _ _ => rfl
+        rw [hrun, hlast]
+        refine ⟨?_, i2, i3, i4⟩
+        rw [i1, w1, valOn_append]
+        grind
+
+/-- `Balance.run` succeeds iff `pipelineRun` from the empty state does, with the same final state; the report inserts
+are the Query stage applied to the collected transactions -/
+theorem run_pipelineRun (cfg : BalCfg) (days : List Day) (stF : BalState) (h : Balance.run cfg days = .ok stF) :
+    ∃ txs, pipelineRun cfg {} days = .ok (stF, txs) ∧ stF.entries = txs.flatMap (Balance.queryTx cfg) := by
+  unfold Balance.run at h
+  rw [foldlM_day_eq] at h
+  cases hp : pipelineRun cfg {} days with
+  | error e => rw [hp] at h; cases h
+  | ok r =>
+    obtain ⟨st', txs⟩ := r
+    rw [hp] at h
+    simp only [Except.map] at h
+    injection h with h; subst h
+    refine ⟨txs, rfl, ?_⟩
+    have := pipelineRun_entries cfg days {} st' txs hp
+    rw [this]
+    rfl
+
+/-! ### the Query stage: report inserts of a plain valued report -/
+
+/-- no `-m` mapping, no `--remap`, no account/commodity filter -/
+structure Plain (cfg : BalCfg) : Prop where
+  mapping : cfg.mapping = []
+  remap : ∀ s, cfg.remap s = false
+  acc : ∀ s, cfg.accountFilter s = true
+  com : ∀ s, cfg.commodityFilter s = true
+
+/-- the total of the report inserts on account `a`, commodity `c` (over all columns) -/
+def entryVal (a : Account) (c : Commodity) (es : List Entry) : Rat :=
+  ((es.filter (fun e => decide (e.account = a) && decide (e.commodity = c))).map (·.amount)).sum
+
+theorem queryPosting_plain (cfg : BalCfg) (hp : Plain cfg) (hv : cfg.valuation.isSome = true) (t : Transaction) (p : Posting) :
+    Balance.queryPosting cfg t p = some ⟨alignIn cfg.periods t.date, p.account, p.commodity, p.value⟩ := by
+  unfold Balance.queryPosting mapAccount shorten mappingLevel
+  simp only [hp.acc, hp.com, hp.remap, hp.mapping, hv, Bool.and_self, if_true, List.find?_nil, Bool.false_eq_true, if_false]
+
+theorem entryVal_queryTx (cfg : BalCfg) (hp : Plain cfg) (hv : cfg.valuation.isSome = true) (a : Account) (c : Commodity)
+    (t : Transaction) :
+    entryVal a c (Balance.queryTx cfg t) = ((t.postings.filter (onPos a c)).map (·.value)).sum := by
+  unfold Balance.queryTx entryVal
+  generalize t.postings = ps
+  induction ps with
+  | nil => rfl
+  | cons p rest ih =>
+    rw [List.filterMap_cons, queryPosting_plain cfg hp hv t p]
+    simp only [List.filter_cons]
+    unfold onPos
+    split
+    · simp only [List.map_cons, List.sum_cons, ih]; rfl
+    · exact ih
+
+theorem entryVal_append (a : Account) (c : Commodity) (xs ys : List Entry) :
+    entryVal a c (xs ++ ys) = entryVal a c xs + entryVal a c ys := by
+  unfold entryVal
+  rw [List.filter_append, List.map_append, sum_append_rat]
+
+/-- in a plain valued report the inserts on `(a, c)` total the values of the postings on `(a, c)` -/
+theorem entryVal_flatMap (cfg : BalCfg) (hp : Plain cfg) (hv : cfg.valuation.isSome = true) (a : Account) (c : Commodity)
+    (txs : List Transaction) : entryVal a c (txs.flatMap (Balance.queryTx cfg)) = valOn a c txs := by
+  induction txs with
+  | nil => rfl
+  | cons t rest ih =>
+    rw [List.flatMap_cons, entryVal_append, ih, entryVal_queryTx cfg hp hv]
+    unfold valOn
+    rw [posOn_cons, List.map_append, sum_append_rat]
 
 end Knut.MTM
